@@ -60,6 +60,13 @@ const (
 	// DISCOURAGE_UPGRADABLE_PUBKEYTYPE test of an unknown public key type
 	// (Core applies that test whatever the signature is).
 	QuirkTapscriptEmptySigSkipsPubkeyType
+	// QuirkParseFailurePushesFalse: legacy / witness v0 CHECKSIG whose
+	// signature passes the encoding checks but cannot be parsed into a usable
+	// (r, s) pair (r or s zero or >= group order), or whose public key cannot
+	// be parsed (not on the curve), pushes false immediately: neither
+	// NULLFAIL nor the CONST_SCRIPTCODE match test is applied (Core applies
+	// both to every failed, non-empty signature).
+	QuirkParseFailurePushesFalse
 )
 
 func hash160(b []byte) []byte {
@@ -736,10 +743,15 @@ func (m *machine) evalChecksig(sig, pk, scriptCode []byte, sv sigVersion, tctx *
 	flags := m.flags
 	switch sv {
 	case sigBase, sigWitnessV0:
+		parseFail := false
+		if m.quirks&QuirkParseFailurePushesFalse != 0 && len(sig) > 0 {
+			_, pkOK := parsePubKeyCached(pk)
+			parseFail = !pkOK || !pubKeyLenOK(pk) || !btcecSigParses(sig, flags)
+		}
 		if sv == sigBase && !(m.quirks&QuirkEmptySigKeepsOp0 != 0 && len(sig) == 0) {
 			var found int
 			scriptCode, found = FindAndDelete(scriptCode, PushData(sig))
-			if found > 0 && flags&ConstScriptCode != 0 {
+			if found > 0 && flags&ConstScriptCode != 0 && !parseFail {
 				return false, ErrSigFindAndDelete
 			}
 		}
@@ -750,7 +762,7 @@ func (m *machine) evalChecksig(sig, pk, scriptCode []byte, sv sigVersion, tctx *
 			return false, e
 		}
 		ok := m.chk.checkECDSA(sig, pk, scriptCode, sv)
-		if !ok && flags&NullFail != 0 && len(sig) > 0 {
+		if !ok && flags&NullFail != 0 && len(sig) > 0 && !parseFail {
 			return false, ErrSigNullFail
 		}
 		return ok, OK
